@@ -317,6 +317,10 @@ func init() {
 				}
 			}
 			root.Children = append(root.Children, sub)
+			// names that begin with a dot (or look like options) are names like any other
+			sub.Children = append(sub.Children, &TreeSpec{Name: ".keep", Kind: "file", Size: 0}, &TreeSpec{Name: ".config", Kind: "dir", Children: []*TreeSpec{{Name: ".nested", Kind: "file", Size: 3, Seed: 5}}})
+			root.Children = append(root.Children, &TreeSpec{Name: ".gitignore", Kind: "file", Size: 12, Seed: 8}, &TreeSpec{Name: "...", Kind: "symlink", Target: ".gitignore"},
+				&TreeSpec{Name: "-rf", Kind: "file", Size: 1, Seed: 2})
 			if err := runImportCase(&ImportCase{Fam: "import", ID: "special-sizes", Tree: root, W: 174}, tr); err != nil {
 				return err
 			}
